@@ -104,9 +104,21 @@ func egProgram[E egElem[E, S], S algebra.PrimeFieldElement[S]](cx *grp[E, S], ke
 			case 'S':
 				a := regs[i]
 				s := cx.randScalar(rng)
-				m, e1 := key.MessageScalarOp(a.m, cx.sc(s))
-				w, e2 := key.WitnessScalarOp(a.w, cx.sc(s))
-				c, e3 := key.CommitmentScalarOp(a.c, cx.sc(s))
+				var m *egMsg[E, S]
+				var w *egWit[E, S]
+				var c *egCom[E, S]
+				var e1, e2, e3 error
+				if rng.Chance(1, 3) {
+					kk := int64(rng.Intn(201)) - 100
+					s = new(big.Int).Mod(big.NewInt(kk), cx.q)
+					m, e1 = commitments.MessageScalarOpSignedNumeric(key, a.m, zInt(big.NewInt(kk)))
+					w, e2 = commitments.WitnessScalarOpSignedNumeric(key, a.w, zInt(big.NewInt(kk)))
+					c, e3 = commitments.CommitmentScalarOpSignedNumeric(key, a.c, zInt(big.NewInt(kk)))
+				} else {
+					m, e1 = key.MessageScalarOp(a.m, cx.sc(s))
+					w, e2 = key.WitnessScalarOp(a.w, cx.sc(s))
+					c, e3 = key.CommitmentScalarOp(a.c, cx.sc(s))
+				}
 				if e1 != nil || e2 != nil || e3 != nil {
 					fail = fmt.Sprint("ScalarOp: ", e1, e2, e3)
 					return
